@@ -32,3 +32,26 @@ Proof.
 Qed.
 Lemma array_occurrence_is_spec d r : xml_array d r = conforms_array d r /\ hier_array d r = conforms_array d r.
 Proof. split; [apply xml_array_spec|apply hier_array_spec]. Qed.
+
+(** the verdict splits by kind: element members are judged by the child elements alone, attribute
+    members by the attributes alone — so a stray node of the other kind never changes it *)
+Lemma xml_member_freq_by_kind decls children attrs :
+  xml_member_freq decls children attrs
+  = xml_freq (of_kind false decls) children && xml_freq (of_kind true decls) attrs.
+Proof.
+  unfold xml_member_freq, xml_freq, of_kind. induction decls as [|[[[k a] mn] mx] r IH]; [reflexivity|].
+  cbn [forallb filter map]. rewrite IH. destruct a; cbn [negb filter map forallb];
+    destruct (occ_ok mn mx _); cbn [andb]; try reflexivity.
+  - rewrite andb_false_r. reflexivity.
+Qed.
+Lemma stray_nodes_irrelevant decls children attrs children' attrs' :
+  (forall k, In k (map (fun d : occ_decl => fst (fst d)) (of_kind false decls)) -> count_name k children' = count_name k children) ->
+  (forall k, In k (map (fun d : occ_decl => fst (fst d)) (of_kind true decls)) -> count_name k attrs' = count_name k attrs) ->
+  xml_member_freq decls children' attrs' = xml_member_freq decls children attrs.
+Proof.
+  intros He Ha. rewrite !xml_member_freq_by_kind. f_equal; unfold xml_freq.
+  - induction (of_kind false decls) as [|[[k mn] mx] r IH]; [reflexivity|]. cbn [forallb].
+    rewrite (He k (or_introl eq_refl)), IH; [reflexivity|]. intros k' H. apply He. right. exact H.
+  - induction (of_kind true decls) as [|[[k mn] mx] r IH]; [reflexivity|]. cbn [forallb].
+    rewrite (Ha k (or_introl eq_refl)), IH; [reflexivity|]. intros k' H. apply Ha. right. exact H.
+Qed.
